@@ -78,6 +78,11 @@ def EvOk (len : Int) : Event → Prop
   | .ignore _ a b => 0 ≤ a ∧ a ≤ b ∧ b ≤ len
   | .err a _ => 0 ≤ a ∧ a ≤ len
 
+/-- a field item is a dot followed by at least one byte -/
+def FieldEv : Event → Prop
+  | .emit t _ _ v => t = Tok.field → ∃ c cs, v = 46 :: c :: cs
+  | _ => True
+
 /-- the cursor invariant between operations -/
 structure B (inp : Bytes) (d : Delims) (s : St) : Prop where
   input : s.input = inp
@@ -87,6 +92,7 @@ structure B (inp : Bytes) (d : Delims) (s : St) : Prop where
   startPos : s.start ≤ s.pos
   posLen : s.pos ≤ inp.length
   events : ∀ e ∈ s.events, EvOk inp.length e
+  fields : ∀ e ∈ s.events, FieldEv e
 
 /-- right after a `next`: the rune just read (of width `width`) can be given back -/
 structure N (inp : Bytes) (d : Delims) (s : St) : Prop extends B inp d s where
